@@ -103,6 +103,10 @@ class C17(Prop):
         "result is compared with the float64-array result (1e-9 relative), and the float64 score with the Float model. "
         "Additionally sf(y, z, w) == average(score_per_obs, w) and == sf(y, z, c*w). Non-trivial = container differs from "
         "float64 and the data are not constant."
+        "Later additions: seventeen containers (unsigned / narrow / single-precision numpy and polars dtypes, Python lists mixing ints and floats in both orders), "
+        "ElementaryScore with Python-int eta, the fitted isotonic model at new non-integer points, numpy's automatic bin methods (known finding), "
+        "'reuse' sequences (the same container and score objects used for other data first and refilled in place), and the 'dtype_rule' stream: "
+        "every numpy dtype at the ends of its range against the model's cast table (result dtype and residual). "
     )
     assumptions = ["np.asarray / polars constructors deliver the numbers they are given (library behaviour, exercised here)"]
 
